@@ -270,6 +270,32 @@ func main() {
 	for _, v := range []int64{-1 << 63, -1 << 32, -1 << 31, -1, 0, 65, 0xd7ff, 0xd800, 0xdfff, 0xe000, 0x10ffff, 0x110000, 1<<31 - 1, 1 << 31, 1 << 32, 1<<32 + 65, 1<<63 - 1} {
 		println("C14/carrier/int64="+itoa(v), hexs(string(rune(v))), hexs(string(rune(uint64(v)))), hexs(string(rune(int32(v)))), hexs(string(rune(uint16(v)))), hexs(string(rune(Int(v)))))
 	}
+	// every 8- and 16-bit integer value converted directly from its own type
+	{
+		d := newDigest()
+		for i := 0; i < 256; i++ {
+			b := uint8(i)
+			c := int8(i)
+			d.str(string(rune(0)) + string(b) + string(c))
+			type myByte uint8
+			d.str(string(myByte(i)))
+		}
+		println("C14/carrier/8bit", d.String())
+		for i := 0; i < 256; i++ {
+			b := uint8(i)
+			if detailCase == "C14/carrier/8bit" {
+				println("C14/carrier/8bit/i="+itoa(int64(i)), hexs(string(b)), hexs(string(int8(i))))
+			}
+		}
+		d = newDigest()
+		for i := 0; i < 65536; i++ {
+			d.str(string(uint16(i)))
+			d.str(string(int16(i)))
+			d.str(string(uint32(i) << 8))
+			d.str(string(Uint(i) * 17))
+		}
+		println("C14/carrier/16bit", d.String())
+	}
 	literals()
 }
 
